@@ -226,7 +226,17 @@ def main():
     chk.add_tlc(cfgname, r)
     if not r.ok:
         raise MachineryError("%s: %s violated on the specification" % (cfgname, r.violated))
+    for sysc in ("MC_System_towers", "MC_System_both") + (("MC_System_big",) if t == "thorough" else ()):
+        rs_ = run_tlc("System", sysc, workers=8)
+        chk.add_tlc(sysc, rs_)
+        if not rs_.ok:
+            raise MachineryError("%s: %s violated on the composed specification" % (sysc, rs_.violated))
     if t == "thorough":
+        for neg in ("MC_System_neg_noinit", "MC_System_neg_nocatch"):
+            rn = run_tlc("System", neg, workers=8)
+            chk.add_tlc(neg, rn, expect_violation=True)
+            if rn.ok:
+                raise MachineryError("negative control %s was not violated" % neg)
         for neg in ("MC_Drivers_neg_completion", "MC_Drivers_neg_slice", "MC_Drivers_neg_noinit"):
             rn = run_tlc("Drivers", neg)
             chk.add_tlc(neg, rn, expect_violation=True)
@@ -339,7 +349,40 @@ def main():
             if not compare(chk, res, refc, cfgc, sc, "cache on, pre-populated directory, %s, pass %d" % (strat, rep)):
                 break
     shutil.rmtree(os.path.join(work, ".bldfm_cache"), ignore_errors=True)
-    chk.traces = nruns
+    # the composition (System.tla): parallel runs with the cache on, recorded on their own and validated as a whole -
+    # pool order, worker reset, thread counts, lookups against the shared directory, in-place stores, assembly
+    from . import trace_system
+
+    sys_trace = os.path.join(common.scratch("trace_raw_C14_system"), "events.ndjson")
+    main_trace = os.environ.get("BLDFM_VERIF_TRACE")
+    os.environ["BLDFM_VERIF_TRACE"] = sys_trace
+    plan = []
+    try:
+        for strat in ("towers", "both"):
+            for pt in (1, 4):
+                shutil.rmtree(os.path.join(work, ".bldfm_cache"), ignore_errors=True)
+                for initfull in (False, True):
+                    rtcfg.NUM_THREADS = pt
+                    try:
+                        res = run_bldfm_parallel(cfgc, max_workers=2, parallel_over=strat)
+                    finally:
+                        rtcfg.NUM_THREADS = 1
+                    nruns += 1
+                    plan.append((strat, pt, initfull))
+                    compare(chk, res, refc, cfgc, {"kind": "system", "strategy": strat, "parent_threads": pt, "second_pass": initfull}, "cache on, %s, parent threads %d, pass %d" % (strat, pt, 2 if initfull else 1))
+    finally:
+        if main_trace:
+            os.environ["BLDFM_VERIF_TRACE"] = main_trace
+    shutil.rmtree(os.path.join(work, ".bldfm_cache"), ignore_errors=True)
+    sruns = [trace_system.to_model(r) for r in trace_system.collect(sys_trace, os.getpid())]
+    acc = 0
+    if len(sruns) != len(plan):
+        chk.drift_note("expected %d recorded cached parallel runs, found %d" % (len(plan), len(sruns)))
+    for i, (mr, (strat, pt, initfull)) in enumerate(zip(sruns, plan)):
+        acc += bool(trace_system.validate_run(chk, mr, "%d_%s_%d_%d" % (i, strat, pt, int(initfull)), pt, ns, initfull))
+    chk.extra["system_traces"] = len(sruns)
+    chk.extra["system_traces_accepted"] = acc
+    chk.traces = nruns + acc
     chk.extra["driver_runs"] = nruns
     chk.extra["shapes"] = len(keys)
     os.environ.pop("BLDFM_VERIF_TRACE", None)
